@@ -661,6 +661,67 @@ def rule_v5_header_view(chk, db):
                     "every signature check but still reaches the operation")
 
 
+SORTS = ("sort", "sort_by", "sort_by_key", "sort_by_cached_key", "sort_unstable", "sort_unstable_by", "sort_unstable_by_key")
+
+
+def rule_v6_header_order(chk, db):
+    """the header view is ordered by name only, and stably: the values of a repeated header stay in arrival order (the order in which both
+    signature versions list them).  A sort that also compares values, or an unstable one, reorders them."""
+    cands = [b for b in db.grep("from_headers") if b.crate == "s3s" and b.kind in ("Fn", "AssocFn") and short(b.name) == "from_headers" and "OrderedHeaders" in b.name]
+    if len(cands) != 1:
+        raise AnchorMissing("OrderedHeaders::from_headers: %d candidates" % len(cands))
+    sites = []
+    seen = set()
+    work = [(cands[0], 0)]
+    while work:
+        b, d = work.pop()
+        if b.name in seen:
+            continue
+        seen.add(b.name)
+        for x in db.nested(b):
+            for bi, t in x.calls():
+                cd = callee_def(t)
+                if short(cd) in SORTS and ("slice" in cd or "vec" in cd.lower() or "smallvec" in cd):
+                    sites.append((x, bi, t))
+                hb = db.bodies.get(t["callee"].get("resolved") or "") or db.bodies.get(cd)
+                if hb is not None and hb.crate == "s3s" and d < 2:
+                    work.append((hb, d + 1))
+    chk.floor("V6", len(sites), 1, "sort calls building the header view")
+    for x, bi, t in sites:
+        nm = short(callee_def(t))
+        why = None
+        if nm.startswith("sort_unstable"):
+            why = "%s is not stable: equal names may change places" % nm
+        elif nm == "sort":
+            why = "`sort()` compares the whole (name, value) pair: the values of a repeated header are reordered by value"
+        else:
+            # the comparator / key closure looks at the name only
+            cl = None
+            for a in t["args"][1:]:
+                pl = flow.op_place(a)
+                df = flow.single_def(x, pl["l"]) if pl is not None else None
+                if df is not None and df["kind"] == "assign" and df["rv"]["k"] == "agg" and df["rv"].get("agg") == "closure":
+                    cl = db.body(df["rv"].get("def", ""))
+            if cl is None:
+                why = "the comparator of %s is not a closure of this function (cannot see what it compares)" % nm
+            else:
+                idx = set()
+                for y in db.nested(cl):
+                    for _, _, st in y.stmts():
+                        for o in st["rv"]["ops"]:
+                            pl = flow.op_place(o)
+                            if pl is not None and pl["l"] >= 2 and pl["l"] <= y.argc:
+                                idx |= {e["f"] for e in pl["proj"] if isinstance(e, dict) and "f" in e}
+                    for _, t2 in y.calls():
+                        for o in t2["args"]:
+                            pl = flow.op_place(o)
+                            if pl is not None and pl["l"] >= 2 and pl["l"] <= y.argc:
+                                idx |= {e["f"] for e in pl["proj"] if isinstance(e, dict) and "f" in e}
+                if idx - {0}:
+                    why = "the comparator of %s also looks at field(s) %s of the (name, value) pair" % (nm, sorted(idx - {0}))
+        chk.verdict(why is None, "V6", "header-view-order:%s" % nm, x.loc(bi), "the header view is not ordered by name only and stably: %s" % why)
+
+
 def run_common(chk, db, kinds, builders):
     """V1-V4 for the verifiers of the given kinds + TAINT⁺ inside the builders"""
     roles = Roles(db)
@@ -683,6 +744,8 @@ def run_common(chk, db, kinds, builders):
     chk.guard("V3", rule_v3_check, db)
     chk.rule("V5", "header view total: OrderedHeaders::from_headers records every header of the request or fails as a whole")
     chk.guard("V5", rule_v5_header_view, db)
+    chk.rule("V6", "header view order: sorted by name only, stably (values of a repeated header stay in arrival order)")
+    chk.guard("V6", rule_v6_header_order, db)
     for fn in builders:
         skip = ()
         chk.guard("V4", lambda c, f=fn: param_reaches_return(db, f, c, "V4", "builder:" + short(f) + ("@v2" if "sig_v2" in f else "")))
